@@ -64,7 +64,7 @@ func permutations(n int, f func(p []int)) {
 }
 
 func runC19(c *rt.Ctx) {
-	maxN := 16
+	maxN := 32
 	maxPerm := 5
 	nkeys := 4000
 	if c.Thorough() {
